@@ -53,6 +53,7 @@ type kind struct {
 
 type tr struct {
 	structs map[string]*structInfo // v1 structs and msg.NewProxy (names do not collide; checked)
+	namedStr map[string]bool       // `type X string` declarations of package v1
 	consts  map[string]string      // string constants: "ProxyTypeTCP", "types.BandwidthLimitModeClient", ...
 	methods map[string]*ast.FuncDecl
 	unknown []string
@@ -118,6 +119,23 @@ func (t *tr) kindOf(e ast.Expr) kind {
 		return kind{"(list bytes)", "[]", "strs", ""}
 	case "types.BandwidthQuantity":
 		return kind{"bwq", "bwq_zero", "bwq", ""}
+	case "*bool":
+		return kind{"(option bool)", "None", "optbool", ""}
+	case "[]types.PortsRange":
+		return kind{"(list ports_range)", "[]", "portsranges", ""}
+	case "map[string]bool":
+		return kind{"(list (bytes * bool))", "[]", "mapsb", ""}
+	}
+	if t.namedStr[s] {
+		return kind{"bytes", "[]", "string", ""}
+	}
+	if strings.HasPrefix(s, "[]") && t.namedStr[s[2:]] {
+		return kind{"(list bytes)", "[]", "strs", ""}
+	}
+	if strings.HasPrefix(s, "*") {
+		if _, ok := t.structs[s[1:]]; ok {
+			return kind{"(option " + s[1:] + ")", "None", "optstruct:" + s[1:], s[1:]}
+		}
 	}
 	if _, ok := t.structs[s]; ok {
 		return kind{s, "zero_" + s, "struct:" + s, s}
@@ -163,6 +181,9 @@ func (t *tr) parseDir(dir string, pkgPrefix string, onlyStructs map[string]bool)
 				case token.TYPE:
 					for _, s := range x.Specs {
 						ts := s.(*ast.TypeSpec)
+						if id, isId := ts.Type.(*ast.Ident); isId && id.Name == "string" && onlyStructs == nil {
+							t.namedStr[ts.Name.Name] = true
+						}
 						st, ok := ts.Type.(*ast.StructType)
 						if !ok {
 							continue
@@ -632,7 +653,7 @@ func (t *tr) stmts(list []ast.Stmt, ev *env, mo *methodOut, indent, guard string
 }
 
 func genCfgMsg() ([]byte, error) {
-	t := &tr{structs: map[string]*structInfo{}, consts: map[string]string{}, methods: map[string]*ast.FuncDecl{}, fset: token.NewFileSet()}
+	t := &tr{structs: map[string]*structInfo{}, namedStr: map[string]bool{}, consts: map[string]string{}, methods: map[string]*ast.FuncDecl{}, fset: token.NewFileSet()}
 	if err := t.parseDir(filepath.Join(tx.Repo, "pkg/config/v1"), "", nil); err != nil {
 		return nil, err
 	}
@@ -721,6 +742,12 @@ func genCfgMsg() ([]byte, error) {
 	for _, e := range tmap {
 		visit(e.sname)
 	}
+	// the other sections of a configuration document (field tables for the flag check, terms of the harness)
+	for _, extra := range []string{"ClientCommonConfig", "ServerConfig", "STCPVisitorConfig", "SUDPVisitorConfig", "XTCPVisitorConfig"} {
+		if _, ok := t.structs[extra]; ok {
+			visit(extra)
+		}
+	}
 
 	var b bytes.Buffer
 	b.WriteString("(* GENERATED by translator unit T3 from pkg/config/v1/*.go, pkg/msg/msg.go, pkg/config/types/types.go -- do not edit *)\n")
@@ -773,6 +800,14 @@ func genCfgMsg() ([]byte, error) {
 			return "(lit_list_eqb bytes_eqb)"
 		case k.code == "bwq":
 			return "bwq_eqb"
+		case k.code == "optbool":
+			return "(lit_opt_eqb Bool.eqb)"
+		case k.code == "portsranges":
+			return "(lit_list_eqb lit_pr_eqb)"
+		case k.code == "mapsb":
+			return "(lit_list_eqb lit_pair_sb_eqb)"
+		case strings.HasPrefix(k.code, "optstruct:"):
+			return "(lit_opt_eqb eqb_" + k.sname + ")"
 		case strings.HasPrefix(k.code, "struct:"):
 			return "eqb_" + k.sname
 		case strings.HasPrefix(k.code, "structs:"):
